@@ -236,9 +236,13 @@ func c10AdversarialJSON(r *core.Rand) ([]byte, string) {
 		d := []int{5, 1024, 1025}[r.Intn(3)]
 		return []byte(strings.Repeat("[", d) + "1" + strings.Repeat("]", d)), "depth-bomb"
 	case 2:
-		return []byte(`{"/":{"bytes":"` + strings.Repeat("A", r.Intn(200)) + []string{`"}}`, `"}`, `"}}}`, `",`, ``}[r.Intn(5)]), "bytes-form-variants"
+		tail := []string{`"}}`, `"}`, `"}}}`, `",`, ``,
+			// the reserved form matched through the whole look-ahead window, then more: another entry after the inner map,
+			// another entry inside it, a second reserved key, nesting of the form in itself
+			`"},"x":1}`, `","y":2}}`, `"},"/":1}`, `"},"x":{"/":{"bytes":"QQ"}}}`, `"}, "x" : [ 1 , { } ] }`}[r.Intn(10)]
+		return []byte(`{"/":{"bytes":"` + strings.Repeat("A", []int{0, 1, 2, 3, 4, r.Intn(200)}[r.Intn(6)]) + tail), "bytes-form-variants"
 	case 3:
-		return []byte(`{"/":"` + []string{"bafkqaaa", "Qm", "", "zzzz", strings.Repeat("b", 300)}[r.Intn(5)] + `"` + []string{"}", ",", ""}[r.Intn(3)]), "link-form-variants"
+		return []byte(`{"/":"` + []string{"bafkqaaa", "Qm", "", "zzzz", strings.Repeat("b", 300)}[r.Intn(5)] + `"` + []string{"}", ",", "", `,"x":1}`, `,"/":"bafkqaaa"}`, `,"x":{"/":"bafkqaaa"}}`}[r.Intn(6)]), "link-form-variants"
 	case 4:
 		return []byte([]string{"1e400", "-1e400", "1e-400", "123456789012345678901234567890", "-0", "1.", "1.e1", "01", "+1", ".5", "1e", "0x10", "NaN", "Infinity"}[r.Intn(14)]), "numbers"
 	case 5:
